@@ -893,13 +893,12 @@ class MembersType(Type):
                         # Add member location
                         e.add_location(addition)
                         raise e
-                else:
-                    decoder.skip_bits(8 * open_type_length)
 
-                alignment_bits = (offset - decoder.number_of_bits) % 8
-
-                if alignment_bits != 0:
-                    decoder.skip_bits(8 - alignment_bits)
+                # Skip to the end of the open type; padding bits, the
+                # zero octet of an empty encoding, and anything this
+                # version does not know.
+                decoder.skip_bits(8 * open_type_length
+                                  - (offset - decoder.number_of_bits))
 
         return decoded
 
